@@ -39,7 +39,7 @@ Theorem C14_order : forall (c : Cfg) (s : sampler) (rs : list Rnd),
     nth i (states c (st s) rs) d = fst (step c (nth i (st s :: states c (st s) rs) d) (nth i rs r0)).
 Proof.
   intros c s rs. destruct (sample_spec Cfg St Rnd Pt Acc step point c rs s) as (H1 & H2 & _).
-  repeat split; [exact H2 | exact H1 |]. intros. apply states_consecutive. assumption.
+  repeat split; [exact H2 | exact H1 |]. intros. apply (states_consecutive Cfg St Rnd Pt Acc step point). assumption.
 Qed.
 
 (* any sequence of sample/warmup calls (any tuning schedule): entries already recorded are never altered,
@@ -191,6 +191,7 @@ Print Assumptions C14_reinitialize.
 
 (* non-vacuity: a two-component state whose second component is not saved and not read satisfies the hypotheses
    of C14_resume; a small fact record satisfies footprint_ok and reinit_ok; the trace instance runs *)
+Local Open Scope string_scope.
 Example C14_example :
   (let step := fun (_ : unit) (s : Z * Z) (r : Z) => ((fst s + r, snd s + 1), fst s)%Z in
    let proj := fun s : Z * Z => fst s in
